@@ -46,7 +46,9 @@ if [ $# -eq 0 ]; then
 fi
 for P in "$@"; do
   D=$(mk)
-  if ! (cd $D && patch -p1 -s --no-backup-if-mismatch < /verif/$P >/dev/null 2>&1 || patch -p1 -s --no-backup-if-mismatch < $P >/dev/null 2>&1); then
+  # (only the parts of the patch under include/ and src/ are applied: the checks read nothing else, and a commit may also touch tests/)
+  PP=$P; [ -f /verif/$P ] && PP=/verif/$P
+  if ! (cd $D && git apply --include='include/*' --include='src/*' $PP >/dev/null 2>&1); then
     echo "stale variant=$(basename $P) (does not apply to the current sources; re-record it)"; rm -rf $D; continue; fi
   tol=no; grep -q '^# anchor-moving' $P && tol=yes
   # "# tolerate-exit-2: Cxx[,Cyy] -- reason": a documented limit of the model; those properties may answer analysis-broken (2), never 1
